@@ -53,14 +53,51 @@ inductive Op where
   | restart
   deriving Repr, Inhabited
 
-/-- tables a statement touches (`lazy._Columns.extract` groups the used columns by table; a table none of whose
-columns is used is not loaded — the generated statements use at least one column of every table) -/
+mutual
+/-- `lazy._Columns.visit_element`: a column counts for its table, an element of a reference to a table for that table -/
+def colTablesF : Feature → List Source
+  | .lit _ => []
+  | .elem o _ =>
+    match o with
+    | .table n fields => [.table n fields]
+    | .ref (.table n fields) _ => [.table n fields]
+    | _ => []
+  | .alias f _ => colTablesF f
+  | .expr _ args => colTablesFs args
+  | .cast f _ => colTablesF f
+  | .window _ _ _ => []
+def colTablesFs : Features → List Source
+  | .nil => []
+  | .cons f fs => colTablesF f ++ colTablesFs fs
+end
+
+def colTablesFO : FeatureOpt → List Source
+  | .none => []
+  | .some f => colTablesF f
+
+def colTablesOrd : Orderings → List Source
+  | .nil => []
+  | .cons (.mk f _) os => colTablesF f ++ colTablesOrd os
+
+/-- all tables below a source -/
 def tablesOf : Source → List Source
   | .table n fields => [.table n fields]
   | .ref inst _ => tablesOf inst
   | .join l r _ _ => tablesOf l ++ tablesOf r
   | .set l r _ => tablesOf l ++ tablesOf r
   | .query src _ _ _ _ _ _ => tablesOf src
+
+/-- `lazy._Columns.extract`: the tables *of which a column is used* anywhere in the statement (projection — all
+features of the source if nothing is selected —, filters, grouping, ordering, join conditions, nested statements).
+A table none of whose columns is used is not loaded (known finding C06-F5). -/
+def usedTables : Source → List Source
+  | .table _ _ => []
+  | .ref inst _ => usedTables inst
+  | .join l r _ c => colTablesFO c ++ usedTables l ++ usedTables r
+  | .set l r _ => usedTables l ++ usedTables r
+  | .query src sel pre grp post ord _ =>
+    (if sel.isEmpty then tablesOf src else colTablesFs sel) ++ colTablesFO pre ++ colTablesFs grp ++ colTablesFO post ++
+      colTablesOrd ord ++ usedTables src
 
 def storageOf (st : State) (f : Feed) : Db := st.storages.getD f.storage []
 
@@ -87,7 +124,7 @@ def read (st : State) (f : Feed) (s : Source) : State × Option ORel :=
   match parse f.srcs s with
   | .error _ => (st, none)
   | .ok q =>
-    let st := if f.kind = .lazy && !cached st q then registerTables st f (tablesOf s) else st
+    let st := if f.kind = .lazy && !cached st q then registerTables st f (usedTables s) else st
     match st.mem.lookup q with
     | some frame => (st, some frame)
     | none =>
